@@ -31,6 +31,7 @@ def run(tier: str, rep: Report):
     try:
         args = {}
         fargs = {}
+        pargs = {}
         k = 0
         for v in SUPPORTED:
             # one group per worker: pairs are only formed inside a group, every group contains all atoms
@@ -49,8 +50,19 @@ def run(tier: str, rep: Report):
             srcs = [{"id": f"sn:{i}", "src": s, "mode": m} for i, (m, s) in enumerate(df.SNIPPETS)]
             srcs += [{"id": f"ex:{n}", "src": s} for n, s in df.REPO_EXAMPLES.items()]
             fargs[v] = [{"sources": srcs, "path": f}]
+            import corpus
+            from common import chunks as _ch
+            pargs.setdefault(v, [])
+            fs = corpus.sample_files(v, 12 if tier == "quick" else 120, "c08")
+            for gi, ch in enumerate([fs[i::4] for i in range(4)]):
+                k += 1
+                f = str(wd / f"perturb-{v}-{k}.ndjson")
+                files.append(f)
+                pargs[v].append({"sources": srcs if gi == 0 else [], "files": ch, "path": f})
         res = pool.map_all("values.pairs_to_file", args)
         pool.map_all("values.frozen_to_file", fargs)
+        pres = pool.map_all("values.perturb_to_file", pargs)
+        rep.cov["code_objects_perturbed"] = sum(sum(x) for x in pres.values())
     finally:
         pool.close()
     npairs = sum(n * n for v in res.values() for n in v)
